@@ -129,6 +129,42 @@ static void discover()
         }
 }
 
+// "a binding, once made, does not change": the slot is sampled at every simulated cpuid/xgetbv of the resolver. A value other than
+// the <entry>_mbinit stub seen there is a binding made while the resolver is still asking the CPU; the final value must be that one.
+static void **w_slot = nullptr;
+static void *w_init = nullptr;
+static std::vector<void *> w_seen;
+static void watch_slot_hook(int, uintptr_t)
+{
+        if (!w_slot)
+                return;
+        void *v = *w_slot;
+        if (v != w_init && (w_seen.empty() || w_seen.back() != v))
+                w_seen.push_back(v);
+}
+struct SlotWatch {
+        SlotWatch(void **slot, void *init)
+        {
+                w_slot = slot;
+                w_init = init;
+                w_seen.clear();
+                g_cpu_yield_hook = watch_slot_hook;
+        }
+        ~SlotWatch()
+        {
+                g_cpu_yield_hook = nullptr;
+                w_slot = nullptr;
+        }
+        // returns the first value that was visible during resolution and differs from the final binding (nullptr if none)
+        void *changed(void *final_v) const
+        {
+                for (void *v : w_seen)
+                        if (v != final_v)
+                                return v;
+                return nullptr;
+        }
+};
+
 struct DispatchSim : Sim {
         const char *name() const override { return "dispatch"; }
         void process_init() override
@@ -466,8 +502,13 @@ struct DispatchSim : Sim {
                                 // the resolver takes no arguments and must preserve every register
                                 uint64_t rax_in, r10_in, r11_in;
                                 {
+                                        SlotWatch sw(en.slot, en.mbinit);
                                         // Env::call poisons rax/r10/r11 from the hidden stream; read them back from the frame afterwards
                                         e.call((en.name + "_dispatch_init").c_str(), en.dinit, { a[0], a[1], a[2], a[3], a[4], a[5] });
+                                        if (void *early = sw.changed(*en.slot))
+                                                e.violation("C12", "binding-changed", "C12/binding-changed/" + en.name,
+                                                            strfmt("%s: the slot held %s while the resolver was still querying the CPU and %s afterwards", en.name.c_str(),
+                                                                   addr_to_sym((uintptr_t) early).c_str(), addr_to_sym((uintptr_t) *en.slot).c_str()));
                                         rax_in = e.frame->in_rax;
                                         r10_in = e.frame->in_r10;
                                         r11_in = e.frame->in_r11;
